@@ -186,14 +186,12 @@ fn convert_str_indices_slow(
     // Slow version when we need to compute full string length
     // because at least one of the indices is negative.
     debug_assert!(matches!(start, Some(start) if start < 0) || matches!(end, Some(end) if end < 0));
-    // If both indices are negative, we should have ruled `start > end` case before.
-    debug_assert!(
-        matches!((start, end), (Some(start), Some(end))
-                if start >= 0 || end >= 0 || (start <= end))
-            || start.is_none()
-            || end.is_none()
-    );
     let len = len(s);
+    // As in Python, `start` beyond the end of the string means there is no window at all,
+    // even if `end` also clamps to the end (`"".find("", 1, -1) == -1`).
+    if matches!(start, Some(start) if start > len.0 as i32) {
+        return None;
+    }
     let (start, end) = convert_indices(len.0 as i32, start, end);
     if start > end {
         return None;
@@ -248,7 +246,9 @@ pub fn convert_str_indices(
                 haystack: s,
             })
         }
-        (Some(start), Some(end)) if ((start >= 0) == (end >= 0)) && start > end => None,
+        // Only for non-negative indices: two negative indices with `start > end`
+        // may both clamp to 0 (`"abc".find("", -4, -5) == 0`), so they take the slow path.
+        (Some(start), Some(end)) if start >= 0 && end >= 0 && start > end => None,
         (start, end) => convert_str_indices_slow(s, start, end),
     }
 }
